@@ -26,6 +26,16 @@ class Obligation:
         self.name, self.hyps, self.goal, self.labels, self.kind, self.meta = name, hyps, goal, labels, kind, meta or {}
 
 
+def _has_quant_cached(f):
+    """has_quant, remembered on the (shared, immutable) formula object of the path condition"""
+    r = getattr(f, '_hq', None)
+    if r is None:
+        r = has_quant(f)
+        try: f._hq = r
+        except AttributeError: pass
+    return r
+
+
 class Exec:
     FEAS_TIMEOUT_MS = 2000
     MAX_PATHS = 4000
@@ -45,8 +55,21 @@ class Exec:
     def feasible(self, st):
         self.feas_checks += 1
         s = z3.Solver(); s.set('timeout', self.FEAS_TIMEOUT_MS)
-        s.add(*[f for f in st.pc if not has_quant(f)])
+        s.add(*[f for f in st.pc if not _has_quant_cached(f)])
         return s.check() != z3.unsat
+
+    def feasible_sides(self, st, conds):
+        """which of the extra conditions are (each alone) consistent with the path condition: one solver, one check per condition"""
+        s = z3.Solver(); s.set('timeout', self.FEAS_TIMEOUT_MS)
+        s.add(*[f for f in st.pc if not _has_quant_cached(f)])
+        res = []
+        for c in conds:
+            self.feas_checks += 1
+            if has_quant(c): res.append(True); continue
+            s.push(); s.add(c)
+            res.append(s.check() != z3.unsat)
+            s.pop()
+        return res
 
     def fork(self, st, cond, lab=None):
         """-> list of (state, bool) for the feasible sides of z3 Bool `cond`"""
@@ -54,11 +77,12 @@ class Exec:
         if z3.is_true(cond): return [(st, True)]
         if z3.is_false(cond): return [(st, False)]
         out = []
-        for side, c in ((True, cond), (False, Not(cond))):
+        sides = ((True, cond), (False, Not(cond)))
+        for (side, c), ok in zip(sides, self.feasible_sides(st, [c for _, c in sides])):
+            if not ok: self.unreachable += 1; continue
             s2 = st.copy(); s2.assume(c)
             if lab: s2.label(f'{lab}={"T" if side else "F"}')
-            if self.feasible(s2): out.append((s2, side))
-            else: self.unreachable += 1
+            out.append((s2, side))
         return out
 
     def emit(self, st, record):
@@ -855,7 +879,24 @@ class Exec:
             if isinstance(v, PExc): return [(s1, ('raise', v))]
             if isinstance(v, PConst) and isinstance(v.obj, type) and issubclass(v.obj, BaseException):
                 return [(s1, ('raise', PExc(v.obj.__name__, val=Val.Obj(fresh('exc', IntSort())), where='raise')))]
-            return [(s1, ('raise', PExc(None, val=to_val(v, s1), where='raise-value')))]
+            # `raise <stored exception object>`: its class is symbolic; split by what an `except` clause can tell apart
+            import asyncio as _aio
+            from . import calls as _calls
+            z = to_val(v, s1)
+            outs = []
+            isexc = And(Val.is_Obj(z), _calls.inst_of(Val.ref(z), BaseException))
+            r = Val.ref(z)
+            ca, ex_ = _calls.inst_of(r, _aio.CancelledError), _calls.inst_of(r, Exception)
+            cases = (('not_an_exception', Not(isexc)), ('CancelledError', And(isexc, ca)), ('StoredException', And(isexc, Not(ca), ex_)),
+                     ('StoredBaseException', And(isexc, Not(ca), Not(ex_))))
+            for (cls, cond), ok in zip(cases, self.feasible_sides(s1, [c for _, c in cases])):
+                if not ok: continue
+                s2 = s1.copy(); s2.assume(cond); s2.label(f'L{s.lineno}.raise:{cls}')
+                if cls == 'not_an_exception':
+                    outs.append((s2, ('raise', PExc('TypeError', val=Val.Obj(fresh('exc', IntSort())), where='raise'))))
+                else:
+                    outs.append((s2, ('raise', PExc(cls, val=z, where='raise-value'))))
+            return outs
         return self._exprflow(self.ev(call, st), then)
 
     # ------------------------------------------------------------------ try / with
@@ -872,7 +913,22 @@ class Exec:
             hcls.append(c.obj)
         if exc.cls is None:
             raise Unsupported('matching an exception value of unknown class against a handler')
+        if exc.cls in ('StoredException', 'StoredBaseException'):
+            import asyncio as _aio
+            for h in hcls:
+                if h not in (Exception, BaseException) and not issubclass(h, _aio.CancelledError):
+                    raise Unsupported(f'matching a stored exception of unknown class against `except {h.__name__}`')
         return any(contract.exc_issubclass(exc.cls, h) for h in hcls)
+
+    def _assume_exc_class(self, st, exc):
+        """the caught exception object is an instance of its (pseudo) class' real bases"""
+        from . import contract, calls as _calls
+        if exc.val is None or exc.cls is None: return
+        bases = contract.PSEUDO_EXC.get(exc.cls)
+        if bases is None:
+            c = contract.exc_class(exc.cls); bases = (c,) if c is not None else ()
+        for b in bases:
+            st.assume(Val.is_Obj(exc.val), _calls.inst_of(Val.ref(exc.val), b))
 
     def st_Try(self, s, st):
         results = []
@@ -885,7 +941,9 @@ class Exec:
                 for h in s.handlers:
                     if self.exc_matches(exc, h.type):
                         s2 = s1.copy(); s2.handled = s2.handled + [exc]
-                        if h.name: s2.env[h.name] = exc
+                        if h.name:
+                            s2.env[h.name] = exc
+                            self._assume_exc_class(s2, exc)
                         s2.label(f'L{h.lineno}.except')
                         for s3, f3 in self.run_block(h.body, s2):
                             s3 = s3.copy(); s3.handled = s3.handled[:-1]
